@@ -2,7 +2,7 @@
 The deterministic model of `ZSTD_decompressStream` (Model/DStream.lean) refines the streaming specification (Model/Stream.lean).
 -/
 import ZstdVerif.Model.DStream
-import ZstdVerif.Props.C02
+import ZstdVerif.Lemmas.StreamSpec
 namespace ZstdVerif.DStream
 open ZstdVerif.Gen ZstdVerif.Stream
 
@@ -188,7 +188,7 @@ def Hdr (all : List FrameD) (s : State) (l : Loc) : Prop :=
 /-- the invariant inside a call, at position `l` -/
 def LInv (all : List FrameD) (s : State) (l : Loc) : Prop :=
   match s.ss with
-  | .init => (l.ip = 0 ∧ l.op = 0 ∧ Fresh all s) ∨ Done all s l
+  | .init => l.ip = 0 ∧ l.op = 0 ∧ Fresh all s
   | .loadHeader => Hdr all s l
   | .read => InFrame all s l ∨ Done all s l
   | .load => InFrame all s l
@@ -209,7 +209,7 @@ def Inv (all : List FrameD) (s : State) : Prop := LInv all s {}
 def AllOk (all : List FrameD) : Prop := ∀ f ∈ all, f.ok = true
 
 theorem inv_start (all : List FrameD) : Inv all (State.start all) :=
-  Or.inl ⟨rfl, rfl, [], rfl, rfl, rfl, rfl⟩
+  ⟨rfl, rfl, [], rfl, rfl, rfl, rfl⟩
 
 /-! ## the stage machine against the accounting -/
 
@@ -546,7 +546,7 @@ theorem result_done (all : List FrameD) (hok : AllOk all) (T U inAvail outCap nf
     simp only [hheld, Bool.false_eq_true, if_false] at hpos ⊢
     refine ⟨legal_end hall T U inAvail outCap _ (by dsimp only; omega) hb.op rfl rfl (by dsimp only; omega) (by dsimp only; omega) (Or.inl (by dsimp only; omega)), ?_⟩
     simp only [Inv, LInv, hss]
-    exact Or.inl ⟨trivial, trivial, pre ++ [s.cur], by rw [hall]; simp, by dsimp only; rw [sizeAll_append]; simp only [sizeAll]; omega,
+    exact ⟨trivial, trivial, pre ++ [s.cur], by rw [hall]; simp, by dsimp only; rw [sizeAll_append]; simp only [sizeAll]; omega,
       by dsimp only; rw [regenAll_append]; simp only [regenAll]; omega, rfl⟩
   | true =>
     have hheld : s.held = true := by rw [hhh, hho]
@@ -559,8 +559,329 @@ theorem result_done (all : List FrameD) (hok : AllOk all) (T U inAvail outCap nf
       exact Or.inr ⟨pre, hall, ⟨by simp [cin]; omega, by dsimp only; omega, rfl, di.ex, di.st, rfl, fun h => by cases h⟩⟩
     · refine ⟨legal_end hall T U inAvail outCap _ (by dsimp only; omega) hb.op rfl rfl (by dsimp only; omega) (by dsimp only; omega) (Or.inl (by dsimp only; omega)), ?_⟩
       simp only [Inv, LInv, hss]
-      exact Or.inl ⟨trivial, trivial, pre ++ [s.cur], by rw [hall]; simp, by dsimp only; rw [sizeAll_append]; simp only [sizeAll]; omega,
+      exact ⟨trivial, trivial, pre ++ [s.cur], by rw [hall]; simp, by dsimp only; rw [sizeAll_append]; simp only [sizeAll]; omega,
         by dsimp only; rw [regenAll_append]; simp only [regenAll]; omega, rfl⟩
+
+/-- the invariant of a frame in progress, carried over to the next call (position `{}`), the totals having absorbed this call's advance -/
+theorem frameinv_rebase (s s2 : State) (l : Loc) (fIn fOut : Nat) (fi : FrameInv s l fIn fOut)
+    (hd : s2.d = s.d) (hb : s2.blocks = s.blocks) (hc : s2.cur = s.cur) (hin : s2.inPos = s.inPos) (hos : s2.outStart = s.outStart)
+    (hoe : s2.outEnd = s.outEnd) (hss : s2.ss = s.ss) (hcin : cin s2 {} = cin s l) (hout : s2.totalOut = s.totalOut + l.op)
+    (hh : s2.held = s2.hostage) (hd2 : s2.hostage = true → s.d.expected = 0) (hk : s.d.expected = 0 → s2.hostage = true) :
+    FrameInv s2 {} fIn fOut := by
+  have h1 := fi.pos; have h2 := fi.lo; have h3 := fi.out; have h4 := fi.ole; have h5 := fi.reg
+  refine ⟨?_, ?_, ?_, ?_, ?_, ?_, ?_, ?_, ?_, hh, ?_, ?_⟩
+  · rw [hcin, hd, hb, hc, hin]; exact h1
+  · rw [hcin]; exact h2
+  · rw [hout, hoe, hos, hd]; show s.totalOut + l.op + 0 + _ = _; omega
+  · rw [hos, hoe]; exact h4
+  · rw [hd, hb, hc]; exact h5
+  · rw [hd, hb]; exact fi.stg
+  · rw [hss, hin, hd]; exact fi.inp1
+  · rw [hss, hin]; exact fi.inp0
+  · rw [hss, hos, hoe]; exact fi.fl
+  · rw [hd]; exact hd2
+  · rw [hd]; intro he hf; have := hk he; rw [hf] at this; cases this
+
+theorem out_le_of_frame {all pre : List FrameD} {s : State} {l : Loc} (hall : all = pre ++ s.cur :: s.frames)
+    (fi : FrameInv s l (sizeAll pre) (regenAll pre)) : s.totalOut + l.op ≤ regenAll all := by
+  have := regen_le hall; have := fi.out; have := fi.reg; omega
+
+/-- the return-value computation inside a frame (stages zdss_read / zdss_load / zdss_flush at the end of the call) -/
+theorem result_inframe (all : List FrameD) (hok : AllOk all) (T U inAvail outCap nf : Nat) (s : State) (l : Loc)
+    (hss : s.ss ≠ .init) (h : SInv all s l) (hb : Bd s l T U inAvail outCap) :
+    LegalNum all T U inAvail outCap ⟨(result { s with noFwd := nf } l inAvail).2.1, l.op, U, (result { s with noFwd := nf } l inAvail).2.2⟩ ∧
+    Inv all { (result { s with noFwd := nf } l inAvail).1 with
+      totalIn := (result { s with noFwd := nf } l inAvail).1.totalIn + (result { s with noFwd := nf } l inAvail).2.1,
+      totalOut := (result { s with noFwd := nf } l inAvail).1.totalOut + l.op } := by
+  -- common facts
+  have key : ∃ pre, all = pre ++ s.cur :: s.frames ∧ FrameInv s l (sizeAll pre) (regenAll pre) ∧
+      (s.d.expected = 0 → s.outStart < s.outEnd) ∧ (s.ss = .read ∨ s.ss = .load ∨ s.ss = .flush) := by
+    unfold SInv at h
+    cases hs : s.ss <;> rw [hs] at h
+    · exact absurd hs hss
+    · exact h.elim
+    · obtain ⟨⟨pre, hall, fi⟩, he⟩ := h; exact ⟨pre, hall, fi, fun h0 => absurd h0 he, Or.inl rfl⟩
+    · obtain ⟨pre, hall, fi⟩ := h
+      exact ⟨pre, hall, fi, fun h0 => by have := fi.inp1 hs; omega, Or.inr (Or.inl rfl)⟩
+    · obtain ⟨⟨pre, hall, fi⟩, hlt⟩ := h; exact ⟨pre, hall, fi, fun _ => hlt, Or.inr (Or.inr rfl)⟩
+  obtain ⟨pre, hall, fi, hpend, hss3⟩ := key
+  have hsz := (ok_size (hok s.cur (by rw [hall]; simp))).2.1
+  have hpos := fi.pos; have hlo := fi.lo; have hole := fi.ole
+  have hUle := out_le_of_frame hall fi
+  have hip := hb.ip; have htin := hb.tin; have htout := hb.tout
+  have hrg := rem_ge fi.stg
+  have hhh := fi.hh
+  unfold cin at hpos hlo
+  unfold result
+  by_cases he : s.d.expected = 0
+  · -- frame fully decoded, output pending: the last byte is (or stays) withheld
+    have hlt := hpend he
+    have hfl : s.ss = .flush := by
+      cases hs : s.ss with
+      | flush => rfl
+      | _ => have := fi.fl (by rw [hs]; simp); omega
+    obtain ⟨r1, _, _⟩ := rem_zero fi.stg he
+    have hin := fi.inp0 (by rw [hfl]; simp)
+    have hne : ¬ (s.outEnd = s.outStart) := by omega
+    simp only [DCtx.nextSrcSize, he, if_true, hne, if_false]
+    cases hho : s.hostage with
+    | false =>
+      have hheld : s.held = false := by rw [hhh, hho]
+      have hk := fi.k he hho
+      simp only [hheld, Bool.false_eq_true, if_false] at hpos hlo
+      simp only [Bool.not_false, if_true]
+      refine ⟨legal_inside hall hok T U inAvail outCap _ (by dsimp only; omega) hb.op rfl (by dsimp only; omega) (by simp)
+        (by dsimp only; omega) (by dsimp only; omega), ?_⟩
+      simp only [Inv, LInv, hfl]
+      exact ⟨pre, hall, frameinv_rebase s _ l _ _ fi rfl rfl rfl rfl rfl rfl hfl.symm (by simp [cin, hheld]; omega) rfl rfl (fun _ => he) (fun _ => rfl)⟩
+    | true =>
+      have hheld : s.held = true := by rw [hhh, hho]
+      simp only [hheld, if_true] at hpos hlo
+      simp only [Bool.not_true, Bool.false_eq_true, if_false]
+      refine ⟨legal_inside hall hok T U inAvail outCap _ hip hb.op rfl (by dsimp only; omega) (by simp)
+        (by dsimp only; omega) (by dsimp only; omega), ?_⟩
+      simp only [Inv, LInv, hfl]
+      exact ⟨pre, hall, frameinv_rebase s _ l _ _ fi rfl rfl rfl rfl rfl rfl hfl.symm (by simp [cin, hheld]; omega) rfl hheld (fun _ => he) (fun _ => rfl)⟩
+  · have hho : s.hostage = false := by
+      cases hh : s.hostage with
+      | false => rfl
+      | true => exact absurd (fi.hd hh) he
+    have hheld : s.held = false := by rw [hhh, hho]
+    simp only [hheld, Bool.false_eq_true, if_false] at hpos hlo
+    have hinp : s.inPos < s.d.expected := by
+      cases hs : s.ss with
+      | load => exact fi.inp1 hs
+      | _ => have := fi.inp0 (by rw [hs]; simp); omega
+    simp only [DCtx.nextSrcSize, he, if_false]
+    refine ⟨legal_inside hall hok T U inAvail outCap _ hip hb.op rfl (by dsimp only; omega)
+      (by simp only [ne_eq, Ret.hint.injEq]; omega) (by dsimp only; omega) (by dsimp only; omega), ?_⟩
+    have hF : ∀ v, s.ss = v → FrameInv { s with ss := v, noFwd := nf, totalIn := s.totalIn + l.ip, totalOut := s.totalOut + l.op } {}
+        (sizeAll pre) (regenAll pre) := fun v hv =>
+      frameinv_rebase s _ l _ _ fi rfl rfl rfl rfl rfl rfl hv.symm
+        (by simp [cin, hheld]) rfl hhh (fun h => by rw [hho] at h; cases h) (fun h => absurd h he)
+    simp only [Inv, LInv]
+    rcases hss3 with h | h | h <;> simp only [h]
+    · exact Or.inl ⟨pre, hall, hF _ h⟩
+    · exact ⟨pre, hall, hF _ h⟩
+    · exact ⟨pre, hall, hF _ h⟩
+
+theorem sinv_out_le {all : List FrameD} {s : State} {l : Loc} (h : SInv all s l) : s.totalOut + l.op ≤ regenAll all := by
+  unfold SInv at h
+  cases hs : s.ss <;> rw [hs] at h
+  · obtain ⟨pre, hall, di⟩ := h; have := regen_le hall; have := di.out; omega
+  · exact h.elim
+  · obtain ⟨⟨pre, hall, fi⟩, _⟩ := h; exact out_le_of_frame hall fi
+  · obtain ⟨pre, hall, fi⟩ := h; exact out_le_of_frame hall fi
+  · obtain ⟨⟨pre, hall, fi⟩, _⟩ := h; exact out_le_of_frame hall fi
+
+/-- a call that reports an error is a legal (empty) observation -/
+theorem legal_err (all : List FrameD) (T U inAvail outCap : Nat) (e : ErrClass) (hU : U ≤ regenAll all) :
+    LegalNum all T U inAvail outCap ⟨0, 0, U, .err e⟩ :=
+  ⟨Nat.zero_le _, Nat.zero_le _, rfl, hU, ⟨(fun h => by cases h), (fun h => by rcases h.2 with h | h <;> exact absurd h (Nat.lt_irrefl 0))⟩⟩
+
+theorem finish_core (all : List FrameD) (hok : AllOk all) (T U inAvail outCap : Nat) (s : State) (l : Loc)
+    (h : SInv all s l) (hb : Bd s l T U inAvail outCap) (nf : Nat) (c1 c2 : Bool) :
+    LegalNum all T U inAvail outCap
+      (if c1 = true then (({ s with noFwd := nf } : State), (⟨0, 0, s.totalOut, .err .noForwardProgressDestFull⟩ : CallResult))
+       else if c2 = true then ({ s with noFwd := nf }, ⟨0, 0, s.totalOut, .err .noForwardProgressInputEmpty⟩)
+       else
+         ({ (result { s with noFwd := nf } l inAvail).1 with
+              totalIn := (result { s with noFwd := nf } l inAvail).1.totalIn + (result { s with noFwd := nf } l inAvail).2.1,
+              totalOut := (result { s with noFwd := nf } l inAvail).1.totalOut + l.op },
+          ⟨(result { s with noFwd := nf } l inAvail).2.1, l.op, s.totalOut, (result { s with noFwd := nf } l inAvail).2.2⟩)).2 ∧
+    ((∀ e, (if c1 = true then (({ s with noFwd := nf } : State), (⟨0, 0, s.totalOut, .err .noForwardProgressDestFull⟩ : CallResult))
+       else if c2 = true then ({ s with noFwd := nf }, ⟨0, 0, s.totalOut, .err .noForwardProgressInputEmpty⟩)
+       else
+         ({ (result { s with noFwd := nf } l inAvail).1 with
+              totalIn := (result { s with noFwd := nf } l inAvail).1.totalIn + (result { s with noFwd := nf } l inAvail).2.1,
+              totalOut := (result { s with noFwd := nf } l inAvail).1.totalOut + l.op },
+          ⟨(result { s with noFwd := nf } l inAvail).2.1, l.op, s.totalOut, (result { s with noFwd := nf } l inAvail).2.2⟩)).2.ret ≠ .err e) →
+     Inv all (if c1 = true then (({ s with noFwd := nf } : State), (⟨0, 0, s.totalOut, .err .noForwardProgressDestFull⟩ : CallResult))
+       else if c2 = true then ({ s with noFwd := nf }, ⟨0, 0, s.totalOut, .err .noForwardProgressInputEmpty⟩)
+       else
+         ({ (result { s with noFwd := nf } l inAvail).1 with
+              totalIn := (result { s with noFwd := nf } l inAvail).1.totalIn + (result { s with noFwd := nf } l inAvail).2.1,
+              totalOut := (result { s with noFwd := nf } l inAvail).1.totalOut + l.op },
+          ⟨(result { s with noFwd := nf } l inAvail).2.1, l.op, s.totalOut, (result { s with noFwd := nf } l inAvail).2.2⟩)).1) := by
+  have hU := sinv_out_le h
+  have htout := hb.tout
+  subst htout
+  cases c1
+  · cases c2
+    · simp only [Bool.false_eq_true, if_false]
+      by_cases hss : s.ss = .init
+      · have hD : Done all s l := by unfold SInv at h; rw [hss] at h; exact h
+        have := result_done all hok T _ inAvail outCap nf s l hss hD hb
+        exact ⟨this.1, fun _ => this.2⟩
+      · have := result_inframe all hok T _ inAvail outCap nf s l hss h hb
+        exact ⟨this.1, fun _ => this.2⟩
+    · simp only [Bool.false_eq_true, if_false, if_true]
+      exact ⟨legal_err all T _ inAvail outCap _ (by omega), fun hne => absurd rfl (hne _)⟩
+  · simp only [if_true]
+    exact ⟨legal_err all T _ inAvail outCap _ (by omega), fun hne => absurd rfl (hne _)⟩
+
+/-- **the tail of the call** (no-forward-progress counter + return value) is a legal observation and re-establishes the invariant -/
+theorem finish_ok (all : List FrameD) (hok : AllOk all) (T U inAvail outCap : Nat) (s : State) (l : Loc)
+    (h : SInv all s l) (hb : Bd s l T U inAvail outCap) :
+    LegalNum all T U inAvail outCap (finish s l inAvail outCap).2 ∧
+    ((∀ e, (finish s l inAvail outCap).2.ret ≠ .err e) → Inv all (finish s l inAvail outCap).1) :=
+  finish_core all hok T U inAvail outCap s l h hb _ _ _
+
+/-- `FrameInv` reads only these fields of the state -/
+theorem frameinv_congr (s s2 : State) (l : Loc) (fIn fOut : Nat) (fi : FrameInv s l fIn fOut)
+    (hd : s2.d = s.d) (hb : s2.blocks = s.blocks) (hc : s2.cur = s.cur) (hin : s2.inPos = s.inPos) (hos : s2.outStart = s.outStart)
+    (hoe : s2.outEnd = s.outEnd) (hss : s2.ss = s.ss) (hti : s2.totalIn = s.totalIn) (hto : s2.totalOut = s.totalOut)
+    (hhe : s2.held = s.held) (hho : s2.hostage = s.hostage) : FrameInv s2 l fIn fOut := by
+  have hcin : cin s2 l = cin s l := by simp only [cin, hti, hhe]
+  refine ⟨?_, ?_, ?_, ?_, ?_, ?_, ?_, ?_, ?_, ?_, ?_, ?_⟩
+  · rw [hcin, hd, hb, hc, hin]; exact fi.pos
+  · rw [hcin]; exact fi.lo
+  · rw [hto, hoe, hos, hd]; exact fi.out
+  · rw [hos, hoe]; exact fi.ole
+  · rw [hd, hb, hc]; exact fi.reg
+  · rw [hd, hb]; exact fi.stg
+  · rw [hss, hin, hd]; exact fi.inp1
+  · rw [hss, hin]; exact fi.inp0
+  · rw [hss, hos, hoe]; exact fi.fl
+  · rw [hhe, hho]; exact fi.hh
+  · rw [hho, hd]; exact fi.hd
+  · rw [hd, hho]; exact fi.k
+
+theorem adaptBuffers_fields (s : State) (a b : Nat) :
+    (adaptBuffers s a b).d = s.d ∧ (adaptBuffers s a b).blocks = s.blocks ∧ (adaptBuffers s a b).cur = s.cur ∧
+    (adaptBuffers s a b).inPos = s.inPos ∧ (adaptBuffers s a b).outStart = s.outStart ∧ (adaptBuffers s a b).outEnd = s.outEnd ∧
+    (adaptBuffers s a b).totalIn = s.totalIn ∧ (adaptBuffers s a b).totalOut = s.totalOut ∧ (adaptBuffers s a b).held = s.held ∧
+    (adaptBuffers s a b).hostage = s.hostage ∧ (adaptBuffers s a b).frames = s.frames := by
+  unfold adaptBuffers
+  dsimp only
+  split <;> split <;> exact ⟨rfl, rfl, rfl, rfl, rfl, rfl, rfl, rfl, rfl, rfl, rfl⟩
+
+theorem hdrNeed_some (f : FrameD) (lh : Nat) (h6 : 6 ≤ f.headerSize) :
+    (hdrNeed (some f) lh = 0 ↔ f.headerSize ≤ lh) ∧
+    (hdrNeed (some f) lh ≠ 0 → lh < hdrNeed (some f) lh ∧ hdrNeed (some f) lh ≤ f.headerSize) := by
+  unfold hdrNeed
+  simp only [ZSTD_FRAMEHEADERSIZE_PREFIX]
+  by_cases h1 : lh < 5 <;> by_cases h2 : lh < f.headerSize <;> simp only [h1, h2, if_true, if_false] <;>
+    refine ⟨⟨fun h => ?_, fun h => ?_⟩, fun h => ?_⟩ <;> first | omega | exact absurd rfl h | trivial | exact ⟨trivial, by omega⟩
+
+/-- the frame invariant right after "Consume header" -/
+theorem consumeHeader_inv (s : State) (l : Loc) (f : FrameD) (fIn fOut : Nat) (hok : f.ok = true)
+    (hp : s.totalIn + l.ip = fIn + f.headerSize) (ho : s.totalOut = fOut) (hop : l.op = 0) (hheld : s.held = false)
+    (hhost : s.hostage = false) (hfl : s.outStart = s.outEnd) (hin : s.inPos = 0) (hk : 1 ≤ l.ip) :
+    FrameInv { consumeHeader s f with ss := .read } l fIn fOut := by
+  obtain ⟨_, _, h6⟩ := ok_size hok
+  cases hsk : f.skippable with
+  | true =>
+    obtain ⟨h8, hbl, _, _⟩ := ok_skip hok hsk
+    refine ⟨?_, ?_, ?_, ?_, ?_, ?_, ?_, ?_, ?_, ?_, ?_, ?_⟩ <;>
+      simp [consumeHeader, hsk, cin, hheld, rem, remRegen, stageOk, DCtx.begin, DCtx.setFrame, frameSize, regenOf, hbl, blocksRegen,
+        ZSTD_SKIPPABLEHEADERSIZE, hhost, hin, hfl, hop] <;> omega
+  | false =>
+    obtain ⟨_, hl, hr, _⟩ := ok_zstd hok hsk
+    refine ⟨?_, ?_, ?_, ?_, ?_, ?_, ?_, ?_, ?_, ?_, ?_, ?_⟩ <;>
+      simp [consumeHeader, hsk, cin, hheld, rem, remRegen, stageOk, DCtx.begin, DCtx.setFrame, frameSize, regenOf,
+        ZSTD_blockHeaderSize, hhost, hin, hfl, hop, hl, hr] <;> omega
+
+theorem regen_pre_le {all pre rest : List FrameD} (hall : all = pre ++ rest) : regenAll pre ≤ regenAll all := by
+  rw [hall, regenAll_append]; omega
+
+/-- stage zdss_loadHeader -/
+theorem stLoadHeader_ok (all : List FrameD) (hok : AllOk all) (T U inAvail outCap : Nat) (s : State) (l : Loc)
+    (hss : s.ss = .loadHeader) (h : Hdr all s l) (hb : Bd s l T U inAvail outCap) (hlim : T + inAvail ≤ sizeAll all) :
+    OutOk all T U inAvail outCap (stLoadHeader s l inAvail outCap) := by
+  obtain ⟨pre, hall, hp, ho, hop, hipl, hheld, hhost, hfl, hin, hlh, hk⟩ := h
+  have hip := hb.ip; have htin := hb.tin; have htout := hb.tout
+  have hUle := regen_pre_le hall
+  cases hfr : s.frames with
+  | nil =>
+    -- no frame left: the caller has nothing to offer
+    have hsz : sizeAll all = sizeAll pre := by rw [hall, hfr]; simp
+    have h0 : inAvail = 0 ∧ l.ip = 0 ∧ s.lhSize = 0 := by omega
+    have h5 : hdrNeed s.frames.head? s.lhSize = 5 := by rw [hfr]; rfl
+    unfold stLoadHeader
+    simp only [h5]
+    rw [if_pos (by decide), if_pos (by omega)]
+    unfold hdrShort
+    refine Or.inr ⟨⟨by dsimp only; omega, Nat.zero_le _, rfl, by dsimp only; omega, ⟨fun h => ?_, fun h => ?_⟩⟩, ?_, htin, htout⟩
+    · simp [hfr, ZSTD_FRAMEHEADERSIZE_MIN, ZSTD_blockHeaderSize] at h
+    · rcases h.2 with h | h <;> dsimp only at h <;> omega
+    · simp only [Inv, LInv, hss]
+      exact ⟨pre, by rw [hfr] at hall; rw [hall]; simp [hfr], by dsimp only; omega, ho, rfl, Nat.zero_le _, hheld, hhost, hfl, hin,
+        (fun f hf => by dsimp only at hf; rw [hfr] at hf; cases hf),
+        (fun h => by dsimp only at h; rw [hfr] at h; simp [hdrNeed, ZSTD_FRAMEHEADERSIZE_PREFIX] at h)⟩
+  | cons f fs =>
+    have hfin : f ∈ all := by rw [hall, hfr]; simp
+    have hfok := hok f hfin
+    obtain ⟨hhs, hf8, h6⟩ := ok_size hfok
+    have hhead : s.frames.head? = some f := by rw [hfr]; rfl
+    have hlhf := hlh f hhead
+    obtain ⟨hn0, hnn⟩ := hdrNeed_some f s.lhSize h6
+    have hall2 : all = pre ++ f :: fs := by rw [hall, hfr]
+    unfold stLoadHeader hdrShort
+    simp only [hhead]
+    by_cases hz : hdrNeed (some f) s.lhSize = 0
+    · -- header complete
+      rw [if_neg (by rw [hz]; exact fun h => h rfl)]
+      have hlheq : s.lhSize = f.headerSize := by have := hn0.1 hz; omega
+      have hk1 : 1 ≤ l.ip := hk (by rw [hhead]; exact hz)
+      have htail : s.frames.tail = fs := by rw [hfr]; rfl
+      unfold hdrComplete
+      by_cases hsp : singlePass s l inAvail outCap f = true
+      · rw [if_pos hsp]
+        unfold singlePass at hsp
+        cases hfcs : f.fcs with
+        | none => rw [hfcs] at hsp; cases hsp
+        | some n =>
+          rw [hfcs] at hsp
+          simp only [Bool.and_eq_true, Bool.not_eq_true', decide_eq_true_eq] at hsp
+          obtain ⟨⟨⟨hsk, hroom⟩, hipeq⟩, hwhole⟩ := hsp
+          have hn := (ok_zstd hfok hsk).2.2.2 n hfcs
+          refine ⟨?_, ⟨by dsimp only; omega, by dsimp only; omega, htin, htout⟩⟩
+          simp only [SInv]
+          refine ⟨pre, by dsimp only; rw [htail]; exact hall2, ⟨?_, ?_, hfl, rfl, Or.inl rfl, ?_, ?_⟩⟩
+          · simp [cin, hheld]; omega
+          · dsimp only; omega
+          · dsimp only; rw [hheld, hhost]
+          · intro _; dsimp only; omega
+      · rw [if_neg hsp]
+        dsimp only
+        split
+        · exact Or.inl ⟨_, rfl, rfl, htout⟩
+        · have hci := consumeHeader_inv s l f (sizeAll pre) (regenAll pre) hfok (by omega) ho hop hheld hhost hfl hin hk1
+          obtain ⟨a1, a2, a3, a4, a5, a6, a7, a8, a9, a10, a11⟩ := adaptBuffers_fields (consumeHeader s f)
+            (max (consumeHeader s f).d.blockSizeMax 4)
+            (DBuf.decodingBufferSize (consumeHeader s f).d.windowSize (consumeHeader s f).d.fcs (consumeHeader s f).d.blockSizeMax)
+          apply stRead_ok all T U inAvail outCap _ l rfl
+          · refine Or.inl ⟨pre, ?_, frameinv_congr _ _ l _ _ hci a1 a2 a3 a4 a5 a6 rfl a7 a8 a9 a10⟩
+            show all = pre ++ (adaptBuffers _ _ _).cur :: (adaptBuffers _ _ _).frames
+            rw [a3, a11]
+            show all = pre ++ f :: s.frames.tail
+            rw [htail]; exact hall2
+          · exact ⟨hip, hb.op, a7.trans htin, a8.trans htout⟩
+    · rw [if_pos hz]
+      obtain ⟨hlt, hle⟩ := hnn hz
+      by_cases hsh : hdrNeed (some f) s.lhSize - s.lhSize > inAvail - l.ip
+      · rw [if_pos hsh]
+        have hnz : ∀ v, v = (if (decide (s.lhSize + (inAvail - l.ip) ≥ 4) && f.skippable) = true then hdrNeed (some f) s.lhSize - (s.lhSize + (inAvail - l.ip))
+            else max ZSTD_FRAMEHEADERSIZE_MIN (hdrNeed (some f) s.lhSize) - (s.lhSize + (inAvail - l.ip)) + ZSTD_blockHeaderSize) → v ≠ 0 := by
+          intro v hv; rw [hv]; simp only [ZSTD_FRAMEHEADERSIZE_MIN, ZSTD_blockHeaderSize]; split <;> omega
+        refine Or.inr ⟨⟨Nat.le_refl _, Nat.zero_le _, rfl, by dsimp only; omega, ⟨fun h => ?_, fun h => ?_⟩⟩, ?_, htin, htout⟩
+        · dsimp only at h; injection h with h; exact absurd h (hnz _ rfl)
+        · exfalso
+          dsimp only at h
+          have hpr : 0 < inAvail := by rcases h.2 with h | h <;> omega
+          exact not_end_inside hall2 hok _ _ (by omega) (by omega) h.1
+        · simp only [Inv, LInv, hss]
+          refine ⟨pre, hall, by dsimp only; omega, ho, rfl, Nat.zero_le _, hheld, hhost, hfl, hin, ?_, ?_⟩
+          · intro g hg; dsimp only at hg ⊢; rw [hhead] at hg; injection hg with hg; subst hg; omega
+          · intro h; exfalso; dsimp only at h; rw [hhead] at h
+            have := (hdrNeed_some f (s.lhSize + (inAvail - l.ip)) h6).1.1 h
+            omega
+      · rw [if_neg hsh]
+        refine ⟨?_, ⟨by dsimp only; omega, hb.op, htin, htout⟩⟩
+        simp only [LInv, hss]
+        refine ⟨pre, hall, by dsimp only; omega, ho, hop, by dsimp only; omega, hheld, hhost, hfl, hin, ?_, fun _ => by dsimp only; omega⟩
+        intro g hg; dsimp only at hg ⊢; rw [hhead] at hg; injection hg with hg; subst hg; omega
 
 /-- **every turn of the loop that starts inside a frame (stages zdss_read / zdss_load / zdss_flush) keeps the invariant**, stays inside
 the call's buffers, and leaves the loop only in a state the result computation is specified for -/
@@ -572,6 +893,511 @@ theorem micro_inframe_ok (all : List FrameD) (T U inAvail outCap : Nat) (s : Sta
   · rw [hss]; exact stRead_ok all T U inAvail outCap s l hss h hb
   · rw [hss]; unfold LInv at h; rw [hss] at h; exact stLoad_ok all T U inAvail outCap s l hss h hb
   · rw [hss]; unfold LInv at h; rw [hss] at h; exact stFlush_ok all T U inAvail outCap s l hss h hb
+
+/-- **every turn of the loop keeps the invariant** -/
+theorem micro_ok (all : List FrameD) (hok : AllOk all) (T U inAvail outCap : Nat) (s : State) (l : Loc)
+    (h : LInv all s l) (hb : Bd s l T U inAvail outCap) (hlim : T + inAvail ≤ sizeAll all) :
+    OutOk all T U inAvail outCap (micro s l inAvail outCap) := by
+  cases hss : s.ss with
+  | read => exact micro_inframe_ok all T U inAvail outCap s l (Or.inl hss) h hb
+  | load => exact micro_inframe_ok all T U inAvail outCap s l (Or.inr (Or.inl hss)) h hb
+  | flush => exact micro_inframe_ok all T U inAvail outCap s l (Or.inr (Or.inr hss)) h hb
+  | loadHeader =>
+    unfold micro; rw [hss]
+    unfold LInv at h; rw [hss] at h
+    exact stLoadHeader_ok all hok T U inAvail outCap s l hss h hb hlim
+  | init =>
+    unfold micro; rw [hss]
+    unfold LInv at h; rw [hss] at h
+    obtain ⟨hi, ho, pre, hall, hti, hto, hheld⟩ := h
+    refine stLoadHeader_ok all hok T U inAvail outCap (stInit s) l rfl ?_ ⟨hb.ip, hb.op, hb.tin, hb.tout⟩ hlim
+    refine ⟨pre, hall, by show s.totalIn + l.ip = sizeAll pre + 0; omega, hto, ho, by show l.ip ≤ 0; omega, hheld, rfl, rfl, rfl, ?_, ?_⟩
+    · intro f _; exact Nat.zero_le _
+    · intro h0
+      exfalso
+      have : hdrNeed s.frames.head? 0 = 5 := by unfold hdrNeed; cases s.frames.head? <;> rfl
+      have h1 : hdrNeed s.frames.head? 0 = 0 := h0
+      omega
+
+theorem loop_ok (all : List FrameD) (hok : AllOk all) (T U inAvail outCap : Nat) (hlim : T + inAvail ≤ sizeAll all) :
+    ∀ (fuel : Nat) (s : State) (l : Loc), LInv all s l → Bd s l T U inAvail outCap →
+      OutOk all T U inAvail outCap (loop fuel s l inAvail outCap) ∧ ∀ s1 l1, loop fuel s l inAvail outCap ≠ .cont s1 l1 := by
+  intro fuel
+  induction fuel with
+  | zero =>
+    intro s l _ hb
+    exact ⟨Or.inl ⟨_, rfl, rfl, hb.tout⟩, fun _ _ h => by cases h⟩
+  | succ n ih =>
+    intro s l h hb
+    have hm := micro_ok all hok T U inAvail outCap s l h hb hlim
+    unfold loop
+    cases hmic : micro s l inAvail outCap with
+    | cont s1 l1 => rw [hmic] at hm; exact ih s1 l1 hm.1 hm.2
+    | stop s1 l1 => rw [hmic] at hm; exact ⟨hm, fun _ _ h => by cases h⟩
+    | ret s1 c r => rw [hmic] at hm; exact ⟨hm, fun _ _ h => by cases h⟩
+
+theorem inv_out_le {all : List FrameD} {s : State} (h : Inv all s) : s.totalOut ≤ regenAll all := by
+  unfold Inv LInv at h
+  cases hs : s.ss <;> rw [hs] at h
+  · obtain ⟨_, _, pre, hall, _, hto, _⟩ := h; rw [hto]; exact regen_pre_le hall
+  · obtain ⟨pre, hall, _, hto, _⟩ := h; rw [hto]; exact regen_pre_le hall
+  · rcases h with ⟨pre, hall, fi⟩ | ⟨pre, hall, di⟩
+    · have := out_le_of_frame hall fi; omega
+    · have := regen_le hall; have := di.out; omega
+  · obtain ⟨pre, hall, fi⟩ := h; have := out_le_of_frame hall fi; omega
+  · obtain ⟨pre, hall, fi⟩ := h; have := out_le_of_frame hall fi; omega
+
+theorem result_totals (s : State) (l : Loc) (inAvail : Nat) :
+    (result s l inAvail).1.totalIn = s.totalIn ∧ (result s l inAvail).1.totalOut = s.totalOut := by
+  unfold result
+  split
+  · split
+    · split
+      · split <;> exact ⟨rfl, rfl⟩
+      · exact ⟨rfl, rfl⟩
+    · split <;> exact ⟨rfl, rfl⟩
+  · exact ⟨rfl, rfl⟩
+
+theorem finish_totals_core (s : State) (l : Loc) (inAvail nf : Nat) (c1 c2 : Bool) (e1 e2 : ErrClass) :
+    (∀ e, (if c1 = true then (({ s with noFwd := nf } : State), (⟨0, 0, s.totalOut, .err e1⟩ : CallResult))
+       else if c2 = true then ({ s with noFwd := nf }, ⟨0, 0, s.totalOut, .err e2⟩)
+       else
+         ({ (result { s with noFwd := nf } l inAvail).1 with
+              totalIn := (result { s with noFwd := nf } l inAvail).1.totalIn + (result { s with noFwd := nf } l inAvail).2.1,
+              totalOut := (result { s with noFwd := nf } l inAvail).1.totalOut + l.op },
+          ⟨(result { s with noFwd := nf } l inAvail).2.1, l.op, s.totalOut, (result { s with noFwd := nf } l inAvail).2.2⟩)).2.ret ≠ .err e) →
+    (if c1 = true then (({ s with noFwd := nf } : State), (⟨0, 0, s.totalOut, .err e1⟩ : CallResult))
+       else if c2 = true then ({ s with noFwd := nf }, ⟨0, 0, s.totalOut, .err e2⟩)
+       else
+         ({ (result { s with noFwd := nf } l inAvail).1 with
+              totalIn := (result { s with noFwd := nf } l inAvail).1.totalIn + (result { s with noFwd := nf } l inAvail).2.1,
+              totalOut := (result { s with noFwd := nf } l inAvail).1.totalOut + l.op },
+          ⟨(result { s with noFwd := nf } l inAvail).2.1, l.op, s.totalOut, (result { s with noFwd := nf } l inAvail).2.2⟩)).1.totalIn =
+      s.totalIn + (if c1 = true then (({ s with noFwd := nf } : State), (⟨0, 0, s.totalOut, .err e1⟩ : CallResult))
+       else if c2 = true then ({ s with noFwd := nf }, ⟨0, 0, s.totalOut, .err e2⟩)
+       else
+         ({ (result { s with noFwd := nf } l inAvail).1 with
+              totalIn := (result { s with noFwd := nf } l inAvail).1.totalIn + (result { s with noFwd := nf } l inAvail).2.1,
+              totalOut := (result { s with noFwd := nf } l inAvail).1.totalOut + l.op },
+          ⟨(result { s with noFwd := nf } l inAvail).2.1, l.op, s.totalOut, (result { s with noFwd := nf } l inAvail).2.2⟩)).2.consumed ∧
+    (if c1 = true then (({ s with noFwd := nf } : State), (⟨0, 0, s.totalOut, .err e1⟩ : CallResult))
+       else if c2 = true then ({ s with noFwd := nf }, ⟨0, 0, s.totalOut, .err e2⟩)
+       else
+         ({ (result { s with noFwd := nf } l inAvail).1 with
+              totalIn := (result { s with noFwd := nf } l inAvail).1.totalIn + (result { s with noFwd := nf } l inAvail).2.1,
+              totalOut := (result { s with noFwd := nf } l inAvail).1.totalOut + l.op },
+          ⟨(result { s with noFwd := nf } l inAvail).2.1, l.op, s.totalOut, (result { s with noFwd := nf } l inAvail).2.2⟩)).1.totalOut =
+      s.totalOut + (if c1 = true then (({ s with noFwd := nf } : State), (⟨0, 0, s.totalOut, .err e1⟩ : CallResult))
+       else if c2 = true then ({ s with noFwd := nf }, ⟨0, 0, s.totalOut, .err e2⟩)
+       else
+         ({ (result { s with noFwd := nf } l inAvail).1 with
+              totalIn := (result { s with noFwd := nf } l inAvail).1.totalIn + (result { s with noFwd := nf } l inAvail).2.1,
+              totalOut := (result { s with noFwd := nf } l inAvail).1.totalOut + l.op },
+          ⟨(result { s with noFwd := nf } l inAvail).2.1, l.op, s.totalOut, (result { s with noFwd := nf } l inAvail).2.2⟩)).2.produced := by
+  obtain ⟨h1, h2⟩ := result_totals { s with noFwd := nf } l inAvail
+  cases c1
+  · cases c2
+    · intro _
+      simp only [Bool.false_eq_true, if_false]
+      exact ⟨by rw [h1], by rw [h2]⟩
+    · intro hne; simp only [Bool.false_eq_true, if_false, if_true] at hne; exact absurd rfl (hne _)
+  · intro hne; simp only [if_true] at hne; exact absurd rfl (hne _)
+
+theorem finish_totals (s : State) (l : Loc) (inAvail outCap : Nat) (hne : ∀ e, (finish s l inAvail outCap).2.ret ≠ .err e) :
+    (finish s l inAvail outCap).1.totalIn = s.totalIn + (finish s l inAvail outCap).2.consumed ∧
+    (finish s l inAvail outCap).1.totalOut = s.totalOut + (finish s l inAvail outCap).2.produced :=
+  finish_totals_core s l inAvail _ _ _ _ _ hne
+
+/-- **one call of the model, numerically**: the observation is legal at the position the ghost totals record, the invariant is
+re-established (unless the call reports an error), and the totals advance by what the call reports -/
+theorem step_ok (all : List FrameD) (hok : AllOk all) (s : State) (hinv : Inv all s) (inAvail outCap : Nat)
+    (hlim : s.totalIn + inAvail ≤ sizeAll all) :
+    LegalNum all s.totalIn s.totalOut inAvail outCap (step s inAvail outCap).2 ∧
+    ((∀ e, (step s inAvail outCap).2.ret ≠ .err e) →
+      Inv all (step s inAvail outCap).1 ∧
+      (step s inAvail outCap).1.totalIn = s.totalIn + (step s inAvail outCap).2.consumed ∧
+      (step s inAvail outCap).1.totalOut = s.totalOut + (step s inAvail outCap).2.produced) := by
+  have hU := inv_out_le hinv
+  obtain ⟨hl, hnc⟩ := loop_ok all hok s.totalIn s.totalOut inAvail outCap hlim (loopFuel inAvail) s {} hinv
+    ⟨Nat.zero_le _, Nat.zero_le _, rfl, rfl⟩
+  unfold step
+  cases hlo : loop (loopFuel inAvail) s {} inAvail outCap with
+  | cont s1 l1 => exact absurd hlo (hnc s1 l1)
+  | stop s1 l1 =>
+    rw [hlo] at hl
+    obtain ⟨hs, hb⟩ := hl
+    have hf := finish_ok all hok s.totalIn s.totalOut inAvail outCap s1 l1 hs hb
+    refine ⟨hf.1, fun hne => ⟨hf.2 hne, ?_⟩⟩
+    have := finish_totals s1 l1 inAvail outCap hne
+    rw [hb.tin, hb.tout] at this
+    exact this
+  | ret s1 c r =>
+    rw [hlo] at hl
+    rcases hl with ⟨e, rfl, rfl, hto⟩ | ⟨hleg, hi, hti, hto⟩
+    · refine ⟨?_, fun hne => absurd rfl (hne e)⟩
+      show LegalNum all s.totalIn s.totalOut inAvail outCap ⟨0, 0, s1.totalOut, .err e⟩
+      rw [hto]; exact legal_err all _ _ inAvail outCap e hU
+    · refine ⟨?_, fun _ => ⟨hi, ?_, ?_⟩⟩
+      · show LegalNum all s.totalIn s.totalOut inAvail outCap ⟨c, 0, s1.totalOut, r⟩
+        rw [hto]; exact hleg
+      · show s1.totalIn + c = s.totalIn + c
+        rw [hti]
+      · show s1.totalOut = s.totalOut + 0
+        rw [hto]; rfl
+
+/-- the numeric judgement is the specification's judgement of the observed call -/
+theorem legal_of_num (all : List FrameD) (content : List Nat) (hlen : content.length = regenAll all) (ds : DState)
+    (c : CallResult) (inAvail outCap : Nat) (h : LegalNum all ds.consumed ds.produced inAvail outCap c) :
+    DLegal (specOf all content) ds (c.toDCall content inAvail outCap) := by
+  obtain ⟨h1, h2, h3, h4, h5⟩ := h
+  have hl : ((content.drop c.producedAt).take c.produced).length = c.produced := by
+    rw [List.length_take, List.length_drop, h3]; omega
+  unfold DLegal CallResult.toDCall specOf
+  dsimp only
+  refine ⟨h1, by rw [hl]; exact h2, by rw [hl, h3], by rw [hl]; omega, ?_⟩
+  rw [hl, beq_iff_eq]
+  exact h5
+
+/-- **every call of the model is a legal step of the streaming specification** derived from the frame list (`specOf`), whatever
+input and output sizes the caller offers (input within the stream); unless the call reports an error the invariant holds again
+and the ghost totals are the specification state after the call -/
+theorem step_legal (all : List FrameD) (content : List Nat) (hok : AllOk all) (hlen : content.length = regenAll all)
+    (s : State) (hinv : Inv all s) (inAvail outCap : Nat) (hlim : s.totalIn + inAvail ≤ sizeAll all)
+    (ds : DState) (hds : ds.consumed = s.totalIn ∧ ds.produced = s.totalOut) :
+    DLegal (specOf all content) ds ((step s inAvail outCap).2.toDCall content inAvail outCap) ∧
+    ((∀ e, (step s inAvail outCap).2.ret ≠ .err e) →
+      Inv all (step s inAvail outCap).1 ∧
+      (ds.step ((step s inAvail outCap).2.toDCall content inAvail outCap)).consumed = (step s inAvail outCap).1.totalIn ∧
+      (ds.step ((step s inAvail outCap).2.toDCall content inAvail outCap)).produced = (step s inAvail outCap).1.totalOut) := by
+  obtain ⟨hleg, hrest⟩ := step_ok all hok s hinv inAvail outCap hlim
+  have hleg2 : LegalNum all ds.consumed ds.produced inAvail outCap (step s inAvail outCap).2 := by rw [hds.1, hds.2]; exact hleg
+  refine ⟨legal_of_num all content hlen ds _ inAvail outCap hleg2, fun hne => ?_⟩
+  obtain ⟨hi, hti, hto⟩ := hrest hne
+  obtain ⟨_, _, h3, h4, _⟩ := hleg
+  refine ⟨hi, ?_, ?_⟩
+  · show ds.consumed + (step s inAvail outCap).2.consumed = _
+    rw [hti, hds.1]
+  · show ds.produced + ((content.drop (step s inAvail outCap).2.producedAt).take (step s inAvail outCap).2.produced).length = _
+    rw [List.length_take, List.length_drop, h3, hto, hds.2]; omega
+
+/-- **completion is reported exactly at frame ends**: the model returns 0 iff right after the call the totals sit on a frame
+boundary of the stream and the call consumed or produced something -/
+theorem zero_iff_frame_end (all : List FrameD) (hok : AllOk all) (s : State) (hinv : Inv all s) (inAvail outCap : Nat)
+    (hlim : s.totalIn + inAvail ≤ sizeAll all) :
+    (step s inAvail outCap).2.ret = .hint 0 ↔
+      ((s.totalIn + (step s inAvail outCap).2.consumed, s.totalOut + (step s inAvail outCap).2.produced) ∈ endsFrom 0 0 all ∧
+       (0 < (step s inAvail outCap).2.consumed ∨ 0 < (step s inAvail outCap).2.produced)) :=
+  (step_ok all hok s hinv inAvail outCap hlim).1.2.2.2.2
+
+/-- the observed history of the model under a segmentation: one `(input size, output room)` pair per call -/
+def calls (content : List Nat) : State → List (Nat × Nat) → List DCall
+  | _, [] => []
+  | s, (i, o) :: rest => (step s i o).2.toDCall content i o :: calls content (step s i o).1 rest
+
+/-- a segmentation the caller can actually offer: input sizes within what is left of the stream, and no call reports an error -/
+def Feasible (all : List FrameD) : State → List (Nat × Nat) → Prop
+  | _, [] => True
+  | s, (i, o) :: rest => s.totalIn + i ≤ sizeAll all ∧ (∀ e, (step s i o).2.ret ≠ .err e) ∧ Feasible all (step s i o).1 rest
+
+/-- **the model's history under any segmentation is a legal run of the specification** -/
+theorem run_legal (all : List FrameD) (content : List Nat) (hok : AllOk all) (hlen : content.length = regenAll all)
+    (io : List (Nat × Nat)) : ∀ (s : State) (ds : DState), Inv all s → ds.consumed = s.totalIn ∧ ds.produced = s.totalOut →
+      Feasible all s io → DLegalRun (specOf all content) ds (calls content s io) := by
+  induction io with
+  | nil => intro _ _ _ _ _; exact trivial
+  | cons p rest ih =>
+    obtain ⟨i, o⟩ := p
+    intro s ds hinv hds hf
+    obtain ⟨hlim, hne, hrest⟩ := hf
+    obtain ⟨hleg, hnext⟩ := step_legal all content hok hlen s hinv i o hlim ds hds
+    obtain ⟨hi, hc, hp⟩ := hnext hne
+    exact ⟨hleg, ih _ _ hi ⟨hc, hp⟩ hrest⟩
+
+/-- **any segmentation = one-shot**: whatever the input / output chunk sizes, once the model has produced as many bytes as the
+content holds, the bytes it produced (`content[producedAt, producedAt + produced)` call after call) are exactly the content that
+single-call decoding yields -/
+theorem model_any_segmentation_eq_oneShot (all : List FrameD) (content : List Nat) (hok : AllOk all)
+    (hlen : content.length = regenAll all) (io : List (Nat × Nat)) (hf : Feasible all (State.start all) io)
+    (hdone : (({} : DState).run (calls content (State.start all) io)).produced = content.length) :
+    (({} : DState).run (calls content (State.start all) io)).output = content :=
+  ZstdVerif.StreamSpec.any_segmentation_eq_oneShot (specOf all content) _
+    (run_legal all content hok hlen io (State.start all) {} (inv_start all) ⟨rfl, rfl⟩ hf) hdone
+
+/-- where the loop can be left with `someMoreWork = 0`: output room exhausted (zdss_flush), input exhausted (zdss_read / zdss_load),
+or the end of a frame (zdss_init) -/
+def StopP (inAvail outCap : Nat) (s : State) (l : Loc) : Prop :=
+  match s.ss with
+  | .flush => l.op = outCap
+  | .read => l.ip = inAvail
+  | .load => l.ip = inAvail
+  | _ => True
+
+theorem stLoad_stopP (s : State) (l : Loc) (inAvail outCap : Nat) (hss : s.ss = .load) (hip : l.ip ≤ inAvail) (s1 : State) (l1 : Loc)
+    (h : stLoad s l inAvail = .stop s1 l1) : StopP inAvail outCap s1 l1 := by
+  unfold stLoad at h
+  dsimp only at h
+  split at h
+  · cases h
+  · split at h
+    · rename_i hlt
+      injection h with h1 h2
+      subst h1; subst h2
+      simp only [StopP, hss]
+      omega
+    · cases h
+
+theorem stRead_stopP (s : State) (l : Loc) (inAvail outCap : Nat) (hss : s.ss = .read) (hip : l.ip ≤ inAvail) (s1 : State) (l1 : Loc)
+    (h : stRead s l inAvail = .stop s1 l1) : StopP inAvail outCap s1 l1 := by
+  unfold stRead at h
+  dsimp only at h
+  split at h
+  · injection h with h1 h2; subst h1; subst h2; simp only [StopP]
+  · split at h
+    · cases h
+    · split at h
+      · injection h with h1 h2; subst h1; subst h2; simp only [StopP, hss]; omega
+      · exact stLoad_stopP { s with ss := .load } l inAvail outCap rfl hip s1 l1 h
+
+theorem stFlush_stopP (s : State) (l : Loc) (inAvail outCap : Nat) (hss : s.ss = .flush) (hop : l.op ≤ outCap) (s1 : State) (l1 : Loc)
+    (h : stFlush s l outCap = .stop s1 l1) : StopP inAvail outCap s1 l1 := by
+  unfold stFlush at h
+  dsimp only at h
+  split at h
+  · split at h <;> split at h <;> cases h
+  · rename_i hne
+    injection h with h1 h2; subst h1; subst h2
+    simp only [StopP, hss]
+    omega
+
+theorem stLoadHeader_stopP (s : State) (l : Loc) (inAvail outCap : Nat) (hss : s.ss = .loadHeader) (hip : l.ip ≤ inAvail)
+    (s1 : State) (l1 : Loc) (h : stLoadHeader s l inAvail outCap = .stop s1 l1) : StopP inAvail outCap s1 l1 := by
+  unfold stLoadHeader at h
+  dsimp only at h
+  split at h
+  · split at h
+    · unfold hdrShort at h; cases h
+    · cases h
+  · split at h
+    · rename_i f hf
+      unfold hdrComplete at h
+      split at h
+      · injection h with h1 h2; subst h1; subst h2; simp only [StopP]
+      · dsimp only at h
+        split at h
+        · cases h
+        · exact stRead_stopP _ l inAvail outCap rfl hip s1 l1 h
+    · injection h with h1 h2; subst h1; subst h2; simp only [StopP, hss]
+
+theorem micro_stopP (s : State) (l : Loc) (inAvail outCap : Nat) (hip : l.ip ≤ inAvail) (hop : l.op ≤ outCap) (s1 : State) (l1 : Loc)
+    (h : micro s l inAvail outCap = .stop s1 l1) : StopP inAvail outCap s1 l1 := by
+  unfold micro at h
+  cases hss : s.ss <;> rw [hss] at h <;> dsimp only at h
+  · exact stLoadHeader_stopP (stInit s) l inAvail outCap rfl hip s1 l1 h
+  · exact stLoadHeader_stopP s l inAvail outCap hss hip s1 l1 h
+  · exact stRead_stopP s l inAvail outCap hss hip s1 l1 h
+  · exact stLoad_stopP s l inAvail outCap hss hip s1 l1 h
+  · exact stFlush_stopP s l inAvail outCap hss hop s1 l1 h
+
+/-- a `return` from inside the loop is an error or the header path that takes everything offered -/
+theorem micro_ret (s : State) (l : Loc) (inAvail outCap : Nat) (s1 : State) (c : Nat) (r : Ret)
+    (h : micro s l inAvail outCap = .ret s1 c r) : (∃ e, r = .err e) ∨ c = inAvail := by
+  have hL : ∀ s l, stLoad s l inAvail = .ret s1 c r → (∃ e, r = .err e) ∨ c = inAvail := by
+    intro s l h
+    unfold stLoad at h; dsimp only at h
+    split at h
+    · injection h with _ _ h3; exact Or.inl ⟨_, h3.symm⟩
+    · split at h <;> cases h
+  have hR : ∀ s l, stRead s l inAvail = .ret s1 c r → (∃ e, r = .err e) ∨ c = inAvail := by
+    intro s l h
+    unfold stRead at h; dsimp only at h
+    split at h
+    · cases h
+    · split at h
+      · cases h
+      · split at h
+        · cases h
+        · exact hL _ _ h
+  have hH : ∀ s l, stLoadHeader s l inAvail outCap = .ret s1 c r → (∃ e, r = .err e) ∨ c = inAvail := by
+    intro s l h
+    unfold stLoadHeader at h; dsimp only at h
+    split at h
+    · split at h
+      · unfold hdrShort at h; injection h with _ h2 _; exact Or.inr h2.symm
+      · cases h
+    · split at h
+      · unfold hdrComplete at h
+        split at h
+        · cases h
+        · dsimp only at h
+          split at h
+          · injection h with _ _ h3; exact Or.inl ⟨_, h3.symm⟩
+          · exact hR _ _ h
+      · cases h
+  unfold micro at h
+  cases hss : s.ss <;> rw [hss] at h <;> dsimp only at h
+  · exact hH _ _ h
+  · exact hH _ _ h
+  · exact hR _ _ h
+  · exact hL _ _ h
+  · unfold stFlush at h; dsimp only at h
+    split at h
+    · split at h <;> split at h <;> cases h
+    · cases h
+
+theorem loop_facts (all : List FrameD) (hok : AllOk all) (T U inAvail outCap : Nat) (hlim : T + inAvail ≤ sizeAll all) :
+    ∀ (fuel : Nat) (s : State) (l : Loc), LInv all s l → Bd s l T U inAvail outCap →
+      (∀ s1 l1, loop fuel s l inAvail outCap = .stop s1 l1 → StopP inAvail outCap s1 l1) ∧
+      (∀ s1 c r, loop fuel s l inAvail outCap = .ret s1 c r → (∃ e, r = .err e) ∨ c = inAvail) := by
+  intro fuel
+  induction fuel with
+  | zero =>
+    intro s l _ _
+    exact ⟨(fun _ _ h => by cases h), (fun _ _ _ h => by unfold loop at h; injection h with _ _ h3; exact Or.inl ⟨_, h3.symm⟩)⟩
+  | succ n ih =>
+    intro s l h hb
+    have hm := micro_ok all hok T U inAvail outCap s l h hb hlim
+    unfold loop
+    cases hmic : micro s l inAvail outCap with
+    | cont s1 l1 => rw [hmic] at hm; exact ih s1 l1 hm.1 hm.2
+    | stop s1 l1 =>
+      refine ⟨fun s2 l2 h2 => ?_, (fun _ _ _ h2 => by cases h2)⟩
+      injection h2 with h3 h4; subst h3; subst h4
+      exact micro_stopP s l inAvail outCap hb.ip hb.op _ _ hmic
+    | ret s1 c r =>
+      refine ⟨(fun _ _ h2 => by cases h2), fun s2 c2 r2 h2 => ?_⟩
+      injection h2 with h3 h4 h5; subst h3; subst h4; subst h5
+      exact micro_ret s l inAvail outCap _ _ _ hmic
+
+theorem finish_vals_core (s : State) (l : Loc) (inAvail nf : Nat) (c1 c2 : Bool) (e1 e2 : ErrClass) :
+    (∀ e, (if c1 = true then (({ s with noFwd := nf } : State), (⟨0, 0, s.totalOut, .err e1⟩ : CallResult))
+       else if c2 = true then ({ s with noFwd := nf }, ⟨0, 0, s.totalOut, .err e2⟩)
+       else
+         ({ (result { s with noFwd := nf } l inAvail).1 with
+              totalIn := (result { s with noFwd := nf } l inAvail).1.totalIn + (result { s with noFwd := nf } l inAvail).2.1,
+              totalOut := (result { s with noFwd := nf } l inAvail).1.totalOut + l.op },
+          ⟨(result { s with noFwd := nf } l inAvail).2.1, l.op, s.totalOut, (result { s with noFwd := nf } l inAvail).2.2⟩)).2.ret ≠ .err e) →
+    (if c1 = true then (({ s with noFwd := nf } : State), (⟨0, 0, s.totalOut, .err e1⟩ : CallResult))
+       else if c2 = true then ({ s with noFwd := nf }, ⟨0, 0, s.totalOut, .err e2⟩)
+       else
+         ({ (result { s with noFwd := nf } l inAvail).1 with
+              totalIn := (result { s with noFwd := nf } l inAvail).1.totalIn + (result { s with noFwd := nf } l inAvail).2.1,
+              totalOut := (result { s with noFwd := nf } l inAvail).1.totalOut + l.op },
+          ⟨(result { s with noFwd := nf } l inAvail).2.1, l.op, s.totalOut, (result { s with noFwd := nf } l inAvail).2.2⟩)).2.consumed =
+      (result { s with noFwd := nf } l inAvail).2.1 ∧
+    (if c1 = true then (({ s with noFwd := nf } : State), (⟨0, 0, s.totalOut, .err e1⟩ : CallResult))
+       else if c2 = true then ({ s with noFwd := nf }, ⟨0, 0, s.totalOut, .err e2⟩)
+       else
+         ({ (result { s with noFwd := nf } l inAvail).1 with
+              totalIn := (result { s with noFwd := nf } l inAvail).1.totalIn + (result { s with noFwd := nf } l inAvail).2.1,
+              totalOut := (result { s with noFwd := nf } l inAvail).1.totalOut + l.op },
+          ⟨(result { s with noFwd := nf } l inAvail).2.1, l.op, s.totalOut, (result { s with noFwd := nf } l inAvail).2.2⟩)).2.produced = l.op := by
+  cases c1
+  · cases c2
+    · intro _; simp
+    · intro hne; simp only [Bool.false_eq_true, if_false, if_true] at hne; exact absurd rfl (hne _)
+  · intro hne; simp only [if_true] at hne; exact absurd rfl (hne _)
+
+/-- unless it reports an error, `finish` reports what `result` computes and the bytes flushed in this call -/
+theorem finish_vals (s : State) (l : Loc) (inAvail outCap : Nat) (hne : ∀ e, (finish s l inAvail outCap).2.ret ≠ .err e) :
+    ∃ nf, (finish s l inAvail outCap).2.consumed = (result { s with noFwd := nf } l inAvail).2.1 ∧
+      (finish s l inAvail outCap).2.produced = l.op :=
+  ⟨_, finish_vals_core s l inAvail _ _ _ _ _ hne⟩
+
+theorem result_consumed_ne (s : State) (l : Loc) (inAvail : Nat) (h : s.d.expected ≠ 0) : (result s l inAvail).2.1 = l.ip := by
+  unfold result
+  rw [if_neg (by simpa [DCtx.nextSrcSize] using h)]
+
+theorem result_consumed_done (s : State) (l : Loc) (inAvail : Nat) (he : s.d.expected = 0) (hfl : s.outEnd = s.outStart)
+    (hk : s.hostage = false → 1 ≤ l.ip) (hi : 0 < inAvail) : 0 < (result s l inAvail).2.1 := by
+  unfold result
+  rw [if_pos (by simpa [DCtx.nextSrcSize] using he), if_pos hfl]
+  cases hh : s.hostage with
+  | false => have := hk hh; simp only [Bool.false_eq_true, if_false]; omega
+  | true =>
+    simp only [if_true]
+    split <;> dsimp only <;> omega
+
+/-- **progress (input side)**: a call that is offered at least one byte of input and at least one byte of output room, and does not
+report an error, consumes or produces at least one byte -/
+theorem progress_input (all : List FrameD) (hok : AllOk all) (s : State) (hinv : Inv all s) (inAvail outCap : Nat)
+    (hlim : s.totalIn + inAvail ≤ sizeAll all) (hi : 0 < inAvail) (ho : 0 < outCap)
+    (hne : ∀ e, (step s inAvail outCap).2.ret ≠ .err e) :
+    0 < (step s inAvail outCap).2.consumed ∨ 0 < (step s inAvail outCap).2.produced := by
+  obtain ⟨hl, hnc⟩ := loop_ok all hok s.totalIn s.totalOut inAvail outCap hlim (loopFuel inAvail) s {} hinv
+    ⟨Nat.zero_le _, Nat.zero_le _, rfl, rfl⟩
+  obtain ⟨hst, hrt⟩ := loop_facts all hok s.totalIn s.totalOut inAvail outCap hlim (loopFuel inAvail) s {} hinv
+    ⟨Nat.zero_le _, Nat.zero_le _, rfl, rfl⟩
+  unfold step at hne ⊢
+  cases hlo : loop (loopFuel inAvail) s {} inAvail outCap with
+  | cont s1 l1 => exact absurd hlo (hnc s1 l1)
+  | ret s1 c r =>
+    rw [hlo] at hne
+    rcases hrt s1 c r hlo with ⟨e, he⟩ | hc
+    · exact absurd (by show r = .err e; exact he) (hne e)
+    · left; show 0 < c; omega
+  | stop s1 l1 =>
+    rw [hlo] at hne hl
+    obtain ⟨hs, hb⟩ := hl
+    have hP := hst s1 l1 hlo
+    obtain ⟨nf, hc, hp⟩ := finish_vals s1 l1 inAvail outCap hne
+    show 0 < (finish s1 l1 inAvail outCap).2.consumed ∨ 0 < (finish s1 l1 inAvail outCap).2.produced
+    rw [hc, hp]
+    have f1 : s1.d.expected ≠ 0 → (result { s1 with noFwd := nf } l1 inAvail).2.1 = l1.ip := result_consumed_ne { s1 with noFwd := nf } l1 inAvail
+    have f2 : s1.d.expected = 0 → s1.outEnd = s1.outStart → (s1.hostage = false → 1 ≤ l1.ip) →
+        0 < (result { s1 with noFwd := nf } l1 inAvail).2.1 := fun a b c => result_consumed_done { s1 with noFwd := nf } l1 inAvail a b c hi
+    generalize (result { s1 with noFwd := nf } l1 inAvail).2.1 = X at f1 f2 ⊢
+    unfold SInv at hs
+    unfold StopP at hP
+    cases hss : s1.ss <;> rw [hss] at hs hP <;> dsimp only at hP
+    · obtain ⟨pre, hall, di⟩ := hs
+      left
+      exact f2 di.ex di.fl.symm di.k
+    · exact hs.elim
+    · obtain ⟨⟨pre, hall, fi⟩, he⟩ := hs
+      left; rw [f1 he]; omega
+    · obtain ⟨pre, hall, fi⟩ := hs
+      have := fi.inp1 hss
+      left; rw [f1 (by omega)]; omega
+    · right; omega
+
+/-- what is left of the stream and of its content: the termination measure of a decoding session -/
+def slack (all : List FrameD) (s : State) : Nat := (sizeAll all - s.totalIn) + (regenAll all - s.totalOut)
+
+/-- **no livelock**: every call that is offered input and output room and does not report an error strictly decreases `slack` -/
+theorem no_livelock (all : List FrameD) (hok : AllOk all) (s : State) (hinv : Inv all s) (inAvail outCap : Nat)
+    (hlim : s.totalIn + inAvail ≤ sizeAll all) (hi : 0 < inAvail) (ho : 0 < outCap)
+    (hne : ∀ e, (step s inAvail outCap).2.ret ≠ .err e) :
+    slack all (step s inAvail outCap).1 < slack all s := by
+  obtain ⟨hleg, hrest⟩ := step_ok all hok s hinv inAvail outCap hlim
+  obtain ⟨hi2, hti, hto⟩ := hrest hne
+  have hU := inv_out_le hi2
+  have hc := hleg.1
+  have hp := progress_input all hok s hinv inAvail outCap hlim hi ho hne
+  unfold slack
+  rw [hti, hto] at *
+  omega
+
+/-- every call of the segmentation offers at least one byte of input and one byte of output room -/
+def Offered : List (Nat × Nat) → Prop
+  | [] => True
+  | (i, o) :: rest => 0 < i ∧ 0 < o ∧ Offered rest
+
+/-- **bounded number of calls**: a session in which every call is offered input and output room (and none reports an error)
+has at most `slack` = (bytes of the stream left) + (bytes of content left) calls — there is no infinite sequence of idle calls -/
+theorem calls_bounded (all : List FrameD) (hok : AllOk all) (io : List (Nat × Nat)) :
+    ∀ (s : State), Inv all s → Feasible all s io → Offered io → io.length ≤ slack all s := by
+  induction io with
+  | nil => intro _ _ _ _; exact Nat.zero_le _
+  | cons p rest ih =>
+    obtain ⟨i, o⟩ := p
+    intro s hinv hf hoff
+    obtain ⟨hlim, hne, hrest⟩ := hf
+    obtain ⟨hi, ho, hoff2⟩ := hoff
+    have hdec := no_livelock all hok s hinv i o hlim hi ho hne
+    have hi2 := ((step_ok all hok s hinv i o hlim).2 hne).1
+    have := ih _ hi2 hrest hoff2
+    simp only [List.length_cons]
+    omega
 
 /-- the returns of a run in which every call is offered exactly the previous return value (5 at the start) and `room` bytes of output -/
 def hintedRets : Nat → State → Nat → Nat → List Nat
@@ -589,60 +1415,41 @@ def exFrame : FrameD :=
 example : exFrame.ok = true := by decide
 example : hintedRets 20 (State.start [exFrame]) 5 1000 = (Stream.hints exFrame.shape).tail ++ [0] := by decide +kernel
 example : 5 :: hintedRets 20 (State.start [exFrame]) 5 1000 = [5, 4, 8, 13, 1, 4, 0] := by decide +kernel
+/-- non-vacuity of `model_any_segmentation_eq_oneShot`: three segmentations of the 35-byte stream `[exFrame]` all deliver its 32 bytes -/
+example : (({} : DState).run (calls (List.range 32) (State.start [exFrame]) [(35, 32)])).output = List.range 32 := by decide +kernel
+example : (({} : DState).run (calls (List.range 32) (State.start [exFrame]) (List.replicate 35 (1, 100)))).output = List.range 32 := by
+  decide +kernel
+example : (({} : DState).run (calls (List.range 32) (State.start [exFrame]) [(10, 100), (25, 100)])).output = List.range 32 := by decide +kernel
 
 /-!
 ## What is proved above, and what is left (exact statements)
 
-PROVED (no hypothesis beyond the invariant itself):
-* `continue_acct` / `block_acct` / `bh_acct` : one `ZSTD_decompressContinue` against the accounting of the frame;
-* `cs_inv`, `stRead_ok`, `stLoad_ok`, `stFlush_ok`, `micro_inframe_ok` : every turn of the loop in stages zdss_read / zdss_load /
-  zdss_flush keeps `LInv`, stays inside the call's buffers (`Bd`), and leaves the loop only in an `SInv` state;
-* `result_done` : on a frame completely decoded and flushed the return-value computation is `LegalNum` (in particular: returns 0
-  iff the totals then sit on that frame's end, with progress; the withheld `hostageByte` returns 1 one byte short of it) and
-  re-establishes `Inv`;
-* `inv_start`, the frame-end list lemmas (`endsFrom_append`, `not_end_inside`, `end_at`), `legal_inside`, `legal_end`.
+PROVED: `step_legal` (every call of the model is a `Stream.DLegal` step of `specOf all content`), `zero_iff_frame_end`, `run_legal`,
+`model_any_segmentation_eq_oneShot` (with Props.C02), `progress_input`, `no_livelock`, `calls_bounded`; underneath them `micro_ok`,
+`loop_ok`, `finish_ok`, `stLoadHeader_ok`, `result_done`, `result_inframe`, `continue_acct`.
 
-NOT PROVED (time budget) — the statements the proved pieces are cut for:
+NOT PROVED (time budget) — exact statements:
 
-  (statement) theorem stLoadHeader_ok (all) (hok : AllOk all) (T U inAvail outCap) (s l) (hss : s.ss = .loadHeader) (h : Hdr all s l)
-    (hb : Bd s l T U inAvail outCap) (hlim : T + inAvail ≤ sizeAll all) : OutOk all T U inAvail outCap (stLoadHeader s l inAvail outCap)
-  -- cases: hdrShort (direct return, position strictly inside the header of `s.frames.head`), header bytes loaded (`Hdr` again),
-  -- singlePass (`Done`), consumeHeader → `InFrame` with rem = blocksSize f.blocks + ckSize f.checksum, then `stRead_ok`.
+  (statement) theorem progress_output (all) (hok : AllOk all) (s) (hinv : Inv all s) (inAvail outCap)
+      (hlim : s.totalIn + inAvail ≤ sizeAll all) (hss : s.ss = .flush) (hpend : s.outStart < s.outEnd) (ho : 0 < outCap)
+      (hne : ∀ e, (step s inAvail outCap).2.ret ≠ .err e) : 0 < (step s inAvail outCap).2.produced
+    -- pending output and output room, even with no input.  Missing: `l.op` never decreases along `loop` (invariant-free, by cases
+    -- on the stage functions), the first turn (`stFlush`) makes `1 ≤ l.op`, and a loop started inside a frame never takes the
+    -- `hdrShort` return.  `progress_input` covers every call with `0 < inAvail ∧ 0 < outCap`.
+    -- NOTE (true of the C code as well): with `outCap = 0` a call can report consumed = 0 although it took a byte, because the
+    -- last byte of a frame is withheld (`hostageByte`) until the output is flushed — hence the `0 < outCap` hypothesis.
 
-  (statement) theorem result_inframe (all) (hok : AllOk all) (T U inAvail outCap nf) (s l) (h : SInv all s l) (hss : s.ss ≠ .init)
-    (hb : Bd s l T U inAvail outCap) : (same conclusion as `result_done`)
-  -- cases: expected ≠ 0 (hint ≠ 0, `legal_inside` with `rem_ge`), expected = 0 with pending output (hostage taken / kept).
+  (statement) theorem hint_exact (f : FrameD) (hok : f.ok = true) (room : Nat) (hroom : f.blockSizeMax ≤ room) :
+      hintedRets (2 * f.blocks.length + 8) (State.start [f]) 5 room = (Stream.hints f.shape).tail ++ [0]
+    -- checked by evaluation on `exFrame` above and call by call against the C code by tools/ent_dstream.py (in-size `h`);
+    -- with Props.C10.hints_within_frame this gives "never asks for bytes beyond the end of the current frame".
 
-  (statement) theorem step_legal (all : List FrameD) (content : List Nat) (hok : AllOk all) (hlen : content.length = regenAll all)
-    (s : State) (hinv : Inv all s) (inAvail outCap : Nat) (hlim : s.totalIn + inAvail ≤ sizeAll all)
-    (ds : Stream.DState) (hds : ds.consumed = s.totalIn ∧ ds.produced = s.totalOut) :
-    Stream.DLegal (specOf all content) ds ((step s inAvail outCap).2.toDCall content inAvail outCap) ∧
-    ((∀ e, (step s inAvail outCap).2.ret ≠ .err e) → Inv all (step s inAvail outCap).1)
-  -- from `loop` by induction on the fuel with `micro_inframe_ok` + `stLoadHeader_ok`, then `finish` = no-forward-progress
-  -- errors (trivially legal: nothing consumed, nothing produced, not 0) or `result_done` / `result_inframe`;
-  -- `LegalNum` gives `DLegal` because `(content.drop U).take n` has length `n` when `U + n ≤ content.length`.
-
-  (statement) theorem zero_iff_frame_end : (corollary of step_legal through Props.C02.zero_iff_frameEnd)
-    (step s inAvail outCap).2.ret = .hint 0 ↔
-      ((s.totalIn + c.consumed, s.totalOut + c.produced) ∈ endsFrom 0 0 all ∧ (0 < c.consumed ∨ 0 < c.produced))
-
-  (statement) theorem progress (hinv : Inv all s) (h : 0 < inAvail ∨ (s.outStart < s.outEnd ∧ 0 < outCap)) :
-    let c := (step s inAvail outCap).2
-    0 < c.consumed ∨ 0 < c.produced ∨ (∃ e, c.ret = .err e) ∨ (s.held = true ∧ inAvail = 0) ∨ (hostage just taken: consumed = l.ip - 1 = 0)
-  -- measure for `no_livelock` with a fixed input: (sizeAll all - totalIn) + (regenAll all - totalOut), strictly decreasing on
-  -- every call that is not an error, until `noFwd` reaches ZSTD_NO_FORWARD_PROGRESS_MAX = 16 and the call errors.
-
-  (statement) theorem hint_exact (f : FrameD) (hok : f.ok) (room ≥ f.blockSizeMax) :
-    hintedRets (2 * f.blocks.length + 8) (State.start [f]) 5 room = (Stream.hints f.shape).tail ++ [0]
-  -- checked by evaluation on `exFrame` above and call by call against the C code by tools/ent_dstream.py (in-size `h`);
-  -- with Props.C10.hints_within_frame this gives "never asks for bytes beyond the end of the current frame".
-
-  (statement) theorem ring_keeps_window (between calls, s.ss = .read, s.d.stage = .decodeBlockHeader ∨ a block stage, frame buffered) :
-    s.outStart + s.d.blockSizeMax ≤ s.outBuffSize ∨ s.outBuffSize ≥ fcs                      -- room for the next block
-    ∧ (s.segEnd ≠ 0 → s.outStart + s.d.blockSizeMax + s.d.windowSize ≤ s.segEnd + s.outStart)  -- i.e. blockSizeMax + windowSize ≤ segEnd:
+  (statement) theorem ring_keeps_window (between calls, s.ss = .read, s.d.stage = .decodeBlockHeader or a block stage, frame buffered) :
+      (s.outStart + s.d.blockSizeMax ≤ s.outBuffSize ∨ fcs ≤ s.outBuffSize)                   -- room for the next block
+      ∧ (s.segEnd ≠ 0 → s.d.blockSizeMax + s.d.windowSize ≤ s.segEnd)
       -- the `windowSize - outStart` bytes of history still needed from before the restart, [segEnd - (windowSize - outStart), segEnd),
       -- start after the end of the block about to be written, [outStart, outStart + blockSizeMax)
-  -- holds because a restart happens only when outStart + blockSizeMax > outBuffSize ≥ windowSize + 2 * blockSizeMax + 64.
+    -- holds because a restart happens only when outStart + blockSizeMax > outBuffSize ≥ windowSize + 2 * blockSizeMax + 64.
 -/
 
 end ZstdVerif.DStream
